@@ -16,7 +16,10 @@ MANIFEST = dict(
          "modelled pipeline (atoms -> candidates -> literal verification -> ordered insertion) reports exactly Text.allMatches (the documented occurrences, ascending, no duplicates, "
          "true length and key) provided the candidate stage is complete; the model is tied to the code by diffing the real scanner's match lists with the Lean spec on "
          "adversarially planted buffers, and completeness of the real automaton stage is checked per case through the atom/candidate hooks. base64/base64wide are checked "
-         "against the spec of the three documented alternatives (sampled).",
+         "against the spec of the three documented alternatives (sampled). Thm/AcBuild.lean proves, for EVERY list of non-empty atoms and EVERY buffer, that the automaton "
+         "the modelled construction builds (ahocorasick.c: trie insertion, BFS failure links with match-list inheritance, failure-link optimisation, first-fit table packing "
+         "with growth) reports exactly the atom occurrences (build_sound; zero-length atoms are outside the theorem); that model is tied to the code by requiring the tables "
+         "it builds from the logged atoms to EQUAL the real transition/match tables and match pool, entry for entry, on every generated rule set (sampled).",
     design_ref="DESIGN.md §5 C01",
     note=core.TB + "Hooks H3/H4 are trusted to report truthfully. Buffers are single blocks.")
 
